@@ -30,7 +30,7 @@ Print Assumptions C27_startup_no_panic.
 
 (** the loop bound of the model is never reached *)
 Theorem C27_model_total : forall oc b, fst (decode oc b) <> Fuel /\ fst (decode_startup b) <> Fuel.
-Proof. intros oc b. split; [exact (decode_never_fuel_thm oc b) | exact (decode_startup_never_fuel_thm b)]. Qed.
+Proof. exact model_total_pin. Qed.
 Print Assumptions C27_model_total.
 
 (** ** 2. framing — FALSE as stated in both directions *)
@@ -55,14 +55,12 @@ Print Assumptions C27_startup_framing_refuted.
 Theorem C27_decode_suffix : forall oc b r b',
   (decode oc b = (r, b') -> exists pre, b = pre ++ b')
   /\ (decode_startup b = (r, b') -> exists pre, b = pre ++ b').
-Proof. intros oc b r b'. split; [exact (decode_suffix_thm oc b r b') | exact (decode_startup_suffix_thm b r b')]. Qed.
+Proof. exact decode_suffix_pin. Qed.
 Print Assumptions C27_decode_suffix.
 
 Theorem C27_need_more_untouched : forall oc b b',
   (decode oc b = (Ok None, b') -> b' = b) /\ (decode_startup b = (Ok None, b') -> b' = b).
-Proof.
-  intros oc b b'. split; [exact (decode_need_more_untouched_thm oc b b') | exact (decode_startup_need_more_untouched_thm b b')].
-Qed.
+Proof. exact need_more_untouched_pin. Qed.
 Print Assumptions C27_need_more_untouched.
 
 (** outside the known classes a returned message consumed exactly the declared frame *)
@@ -88,9 +86,7 @@ Theorem C27_negative_length_waits_for_ever : forall oc b ext,
   (k_neg_len b = true -> k_len_minus1 b = false -> blen (b ++ ext) < two63 ->
      decode oc (b ++ ext) = (Ok None, b ++ ext))
   /\ (ks_neg_len b = true -> blen (b ++ ext) < two63 -> decode_startup (b ++ ext) = (Ok None, b ++ ext)).
-Proof.
-  intros oc b ext. split; [exact (decode_eternal_wait_thm oc b ext) | exact (decode_startup_eternal_wait_thm b ext)].
-Qed.
+Proof. exact negative_length_waits_pin. Qed.
 Print Assumptions C27_negative_length_waits_for_ever.
 
 (** need-more only when bytes are really missing, unless the declared length is negative *)
@@ -110,9 +106,7 @@ Theorem C27_decode_encode_frontend : forall oc m rest,
   wf_frontend m = true ->
   (is_startup_kind m = false -> decode oc (enc_frontend m ++ rest) = (Ok (Some m), rest))
   /\ (is_startup_kind m = true -> decode_startup (enc_frontend m ++ rest) = (Ok (Some m), rest)).
-Proof.
-  intros oc m rest W. split; [exact (decode_encode_regular_thm oc m rest W) | exact (decode_startup_encode_thm m rest W)].
-Qed.
+Proof. exact decode_encode_frontend_pin. Qed.
 Print Assumptions C27_decode_encode_frontend.
 
 (** ** 5. refinement: outside the known classes the decoders ARE the framing-respecting reference;
@@ -130,7 +124,7 @@ Print Assumptions C27_startup_refines_spec.
 Theorem C27_known_classes_exact : forall b, blen b < two63 ->
   (known_decode b = true -> ~ agrees (observe (decode true b)) b (spec_decode b))
   /\ (known_startup b = true -> ~ agrees (observe (decode_startup b)) b (spec_decode_startup b)).
-Proof. intros b H. split; [exact (decode_known_exact_thm b H) | exact (startup_known_exact_thm b H)]. Qed.
+Proof. exact known_classes_exact_pin. Qed.
 Print Assumptions C27_known_classes_exact.
 
 (** the reference satisfies the property: framing, progress, stability under later bytes, round trip *)
